@@ -84,16 +84,11 @@ Theorem C04_repaired_queue_drain_wakes :
   p' = PPend /\ started x' = 27 /\ stall_source c x' = false /\ rb (m x') = 0 /\ bad x' = false.
 Proof. vm_compute. repeat split. Qed.
 
-(* NO LOST WAKE-UP for the internal source, on the repaired dispatcher (dd2b74c), for EVERY poll of
-   the composer: if the poll returns Pending while a decodable message sits in read_buf behind open
-   gates, the task has woken itself.  Premises: the state is between polls of a well-formed run
-   (payload decoder not at "0 remaining", non-empty request heads: both are invariants of [poll],
-   next theorem; SHUTDOWN not yet set) and the request-body gate was not the closed one when
-   poll_request ran at the top of this poll (payload not Paused).
-   NOT covered (partial): a poll that starts with the payload Paused -- there the wake-up comes from
-   the consumer through the io waker registered by need_read; proving it needs the registration
-   tracked on the target channel through queue pops, and the model would have to include the
-   close-for-unread-payload path for a handler that answers while its body is paused. *)
+(* INTERMEDIATE TREE (dd2b74c .. before 0586f2d: F21 repair only; kept as history -- the statement
+   for the tree as it is now is C04_no_lost_decode_wake_general below).  With only the full-queue
+   wake-up the claim needs the premise that the request-body gate was not the closed one when
+   poll_request ran at the top of the poll (payload not Paused); for Paused polls it was false
+   (C04_refuted_paused_payload_dropped_stall). *)
 Theorem C04_no_lost_decode_wake : forall wbs r h431 F (x : sim) (rd : round) (x' : sim),
   let c := std_cfg wbs r h431 true in
   shut x = false -> cpl (m x) <> Some 0 -> Forall pos_head (todo x) ->
@@ -102,7 +97,7 @@ Theorem C04_no_lost_decode_wake : forall wbs r h431 F (x : sim) (rd : round) (x'
   stall_source c x' = true -> o_wake x' = true.
 Proof.
   intros wbs r h431 F x rd x' c Hs Hc Hp Hpoll Hb Hn Hst.
-  apply (no_lost_decode_wake c F x rd x'); auto. vm_compute. reflexivity.
+  apply (no_lost_decode_wake c F x rd x'); auto; vm_compute; reflexivity.
 Qed.
 
 Theorem C04_wellformed_is_invariant : forall wbs r h431 fx F (x : sim) (rd : round) x' p,
@@ -110,6 +105,40 @@ Theorem C04_wellformed_is_invariant : forall wbs r h431 fx F (x : sim) (rd : rou
   (bad x = true \/ cpl (m x) <> Some 0) -> Forall pos_head (todo x) ->
   (bad x' = true \/ cpl (m x') <> Some 0) /\ Forall pos_head (todo x').
 Proof. intros wbs r h431 fx F x rd x' p H. exact (poll_preserves_wf _ F x rd x' p H). Qed.
+
+(* BEFORE the repair 0586f2d (F28; witness kept as history): the same hole had a second entrance.
+   The decode gate of poll_request can also be closed by a Paused request payload, and it re-opens
+   without any wake-up when the handler DROPS the payload (PayloadStatus::Dropped) and answers in
+   the same poll.  With the F21 repair alone the task returned Pending with read_buf full (131072
+   bytes), 137921 bytes unread at the socket, no reader registered (read_available returned at the
+   cap), the payload's io waker gone with the payload, nothing to flush, no timer armed. *)
+Theorem C04_refuted_paused_payload_dropped_stall :
+  let '(x, p) := f28_after false in
+  let c := std_cfg2 32768 H1_LW_BUFFER_SIZE 123 true false in
+  p = PPend /\ bad x = false /\ stall_source c x = true /\ o_wake x = false /\
+  need_read_status (m x) = Some PDropped /\ rb (m x) = 131072 /\ sock x = 137921 /\
+  state (m x) = SNone /\ wb (m x) = 0 /\ started x = 1.
+Proof. vm_compute. repeat split. Qed.
+
+(* MAIN STATEMENT FOR THE TREE AS IT IS (0586f2d: self-wake whenever the decode gate -- queue OR
+   payload -- was closed when poll_request ran and is open at the end of the poll while read_buf is
+   not empty).  For EVERY poll of the composer, with no premise on the payload: a poll that returns
+   Pending with a decodable message behind open gates has woken itself.  The remaining premises
+   (SHUTDOWN not set; payload decoder not at "0 remaining"; non-empty heads) describe a between-polls
+   state of a well-formed run and are invariants of [poll] (C04_wellformed_is_invariant). *)
+Theorem C04_no_lost_decode_wake_general : forall wbs r h431 fx F (x : sim) (rd : round) (x' : sim),
+  let c := std_cfg2 wbs r h431 fx true in
+  shut x = false -> cpl (m x) <> Some 0 -> Forall pos_head (todo x) ->
+  poll c F x rd = (x', PPend) -> bad x' = false ->
+  stall_source c x' = true -> o_wake x' = true.
+Proof.
+  intros wbs r h431 fx F x rd x' c Hs Hc Hp Hpoll Hb Hst.
+  apply (no_lost_decode_wake_general c F x rd x'); auto. vm_compute. reflexivity.
+Qed.
+
+Theorem C04_generalised_repair_wakes :
+  let '(x, p) := f28_after true in p = PPend /\ bad x = false /\ o_wake x = true.
+Proof. vm_compute. repeat split. Qed.
 
 (* the epilogue guard of Dispatcher::poll (`state_is_none && write_buf.is_empty()` before the stored
    stream error is surfaced): whenever the composer's poll resolves with that error, write_buf is
